@@ -80,7 +80,7 @@ def P(pid, explanation, harnesses, bounds=M2, outside="more than 3 orders in the
     }
 
 
-DISC = "clock discipline: no two active orders share (side, price, queue time), incl. the incoming / re-queued one (the complement is C05)"
+DISC = "representation invariant on queue times: resting orders carry pairwise distinct ones, all below the book's next queue time (the book hands them out strictly increasing since the C05 repair; ties in time-stamps are ordinary histories)"
 KINDS = ["bid_limit", "ask_limit", "bid_market", "ask_market"]
 
 P("C01",
@@ -92,7 +92,12 @@ P("C01",
   + [book("c01_cancel_m2", "cancel_order(any id, any status) == reference", timeout=600),
      book("c01_event_dispatch_m2", "process_event(New|Cancellation|Modify) == direct call (trading off)", timeout=600),
      book("c01_admin_m2", "set_time / toggles / reset_trade_vol change nothing else", timeout=600),
-     book("c01_place_existing_off_m2", "place_order(existing New entry), trading off: prologue/dispatch/write-back == reference", timeout=600)],
+     book("c01_place_existing_off_m2", "place_order(existing New entry), trading off: prologue/dispatch/write-back == reference", timeout=600),
+     book("c06_modify_with_price_m2", "a RE-PRICED order == reference engine (leaves the book, re-arrives now, matches, rests behind everyone at its price)")]
+  + [book(f"c01_place_{k}_m3", f"create_and_place_order({k}) on an arbitrary 3-entry table (<= 3 resting per side) == reference engine", tiers=("thorough",), timeout=3000,
+          covers=["cover.two_fills_then_remainder_rests"] if "limit" in k else ["cover.two_fills_then_market_remainder_cancelled"]) for k in KINDS]
+  + [book("c01_cancel_m3", "cancel on a 3-entry table == reference; views == recomputation", tiers=("thorough",), timeout=1500, covers=["cover.cancel_active", "cover.cancel_filled", "cover.cancel_one_of_two_at_level"]),
+     book("c06_modify_with_price_m3", "re-pricing modification on a 3-entry table == reference", tiers=("thorough",), timeout=3000)],
   extra_assume=[DISC])
 
 P("C02",
@@ -101,11 +106,15 @@ P("C02",
   "side indexes equal the ones rebuilt from the order list; with trading on and an uncrossed pre-state the post-state is uncrossed. Tick symbolic 1..10.",
   [book(f"c02_place_{k}_m2", f"views == recomputation after create_and_place_order({k}); tick 1..10") for k in KINDS]
   + [book("c02_cancel_m2", "views == recomputation after cancel_order", timeout=600),
-     book("c02_modify_m2", "views == recomputation after modify_order (all shapes)"),
+     book("c02_modify_volume_only_m2", "views == recomputation after modify_order(id, None, Some v)", covers=["cover.pure_reduction", "cover.modify_non_active"]),
+     book("c02_modify_with_price_m2", "views == recomputation after modify_order(id, Some p, v?)", covers=["cover.modify_trades", "cover.modify_non_active"]),
+     book("c02_modify_m2", "views == recomputation after modify_order (all shapes in one formula)", tiers=("thorough",), timeout=3000),
      book("c02_uncrossed_place_limit_m2", "trading & uncrossed pre-state => uncrossed after any placement"),
      book("c02_uncrossed_modify_m2", "trading & uncrossed pre-state => uncrossed after any modification"),
      book("c02_mid_price_m2", "mid_price == bid + (ask-bid)/2 exactly, never panics (uncrossed states)", timeout=600),
-     book("c02_mid_price_crossed", "mid_price on a crossed book (reachable after trading was disabled)", role="C02.mid_price_crossed", timeout=600, covers=["cover.two_sided_book"])],
+     book("c02_mid_price_crossed", "mid_price on a crossed book (reachable after trading was disabled)", role="C02.mid_price_crossed", timeout=600, covers=["cover.two_sided_book"]),
+     book("c02_place_bid_limit_l3_m2", "views == recomputation with 3 published levels", tiers=("thorough",), timeout=1500, covers=["cover.two_fills_then_remainder_rests"]),
+     book("c01_cancel_m3", "views == recomputation after a cancel on a 3-entry table", tiers=("thorough",), timeout=1500, covers=["cover.cancel_active", "cover.cancel_filled", "cover.cancel_one_of_two_at_level"])],
   extra_assume=[DISC])
 
 P("C03",
@@ -133,7 +142,8 @@ P("C06",
   "(None,None) and non-active targets are no-ops. The v == current volume boundary is inside the (None,Some v) harness.",
   [book("c06_modify_volume_only_m2", "modify_order(id, None, Some v), v <,=,> current, trading symbolic == reference"),
    book("c06_modify_with_price_m2", "modify_order(id, Some p, v?), any on-grid p, trading symbolic == reference"),
-   book("c06_modify_any_off_m2", "modify_order any shape, trading off == reference", timeout=600)],
+   book("c06_modify_any_off_m2", "modify_order any shape, trading off == reference", timeout=600),
+   book("c06_modify_with_price_m3", "re-pricing modification on a 3-entry table == reference", tiers=("thorough",), timeout=3000)],
   extra_assume=[DISC])
 
 P("C13",
@@ -156,7 +166,8 @@ P("C12",
   [book(f"c12_create_tick{t}_m2", f"create_order(any side, any volume, any u32 price | market), tick {t}", covers=["cover.limit_order_created"] + (["cover.creation_rejected"] if t > 1 else []), timeout=600,
         tiers=("quick", "thorough") if t in (1, 2, 3, 7, 10) else ("thorough",)) for t in range(1, 11)]
   + [book("c12_grid_place_tick3_off_m2", "placement (any kind) on a tick-3 book keeps every price on the grid; views == recomputation", covers=["cover.placed_while_disabled"]),
-     book("c12_grid_modify_ongrid_tick3_m2", "modify to any ON-grid price on a tick-3 book keeps the grid; views == recomputation", covers=["cover.modify_trades", "cover.modify_non_active"]),
+     book("c12_grid_modify_price_tick3_off_m2", "modify to any ON-grid price on a tick-3 book (trading off) keeps the grid; views == recomputation", covers=["cover.modify_non_active"]),
+     book("c12_grid_modify_ongrid_tick3_m2", "same with the trading flag symbolic and every option shape", covers=["cover.modify_trades", "cover.modify_non_active"], tiers=("thorough",), timeout=3000),
      book("c12_modify_any_price_tick3_m2", "modify_order with ANY new price on a tick-3 book keeps every resting price on the grid", role="C12.modify_offgrid_price", covers=["cover.modify_non_active"], timeout=600)],
   bounds="table of 2 arbitrary entries (+1 created), ticks 1..10 enumerated (quick: 1,2,3,7,10), full-width prices incl. 0 and 2^32-1",
   outside="ticks > 10; tables > 2 entries; environment-level creation is decided by C10's submission harnesses (same Ok <=> on-grid / no-trace assertions through Env::place_order)")
@@ -377,8 +388,10 @@ PROPS["C14"] = {
     "outside": "3-4 assets (indexing code is uniform in ASSETS); market-level operations with trading on (the wrappers do not look at the flag; matching is C01); MarketEnv end-to-end with the real process_event",
     "explanation": "A Market<2> assembled from two independent arbitrary books: one market-level operation addressed to asset a leaves asset 1-a's complete observable snapshot and side indexes untouched and makes asset a equal to a stand-alone reference book taking the same operation; ids are (asset, per-asset sequence number); every all-asset query (incl. the re-implemented level_2_data) returns [f(book0), f(book1)]; set_time / toggles / reset reach every asset; Market::new gives each asset its own tick size and the shared clock and flag. MarketEnv<2>::step (loop harness): each asset's book receives exactly its own instructions, in the shuffled order, stamped start+i with i the position in the WHOLE batch; per-asset cache, records and per-step volumes.",
     "stubs": ["Market::process_event -> Market::verif_log_event in the market_env_step_loop_* harnesses only", "std BTreeMap -> verif_map (cfg(kani) only)"],
-    "harnesses": [book("c14_market_op_asset0_off", "one market-level operation on asset 0 (create / create+place / place / cancel / modify / 3 events)", covers=["cover.placed_on_addressed_asset", "cover.cancel_event_routed"]),
-                  book("c14_market_op_asset1_off", "one market-level operation on asset 1", covers=["cover.placed_on_addressed_asset", "cover.cancel_event_routed"]),
+    "harnesses": [book(f"c14_market_{g}_asset{a}_off", f"market-level {g} addressed to asset {a}", covers=[c] if c else [], timeout=900,
+                       tiers=("quick", "thorough") if (g, a) in (("create_place", 1), ("event_new", 0), ("event_cancel", 1), ("modify", 0), ("create", 0)) else ("thorough",))
+                  for g, c in (("create", None), ("create_place", "cover.placed_on_addressed_asset"), ("place", None), ("cancel", None), ("modify", None), ("event_new", "cover.new_event_routed"),
+                               ("event_cancel", "cover.cancel_event_routed"), ("event_modify", "cover.modify_event_routed")) for a in (0, 1)] + [
                   book("c14_market_admin", "set_time / toggles / reset_trade_vols reach both assets; Market::new per-asset ticks", covers=["cover.reset_reaches_asset_1"], timeout=900),
                   de("market_env_step_loop_b2", "MarketEnv<2>::step loop, 2 instructions on symbolic assets", covers=["cover.cross_asset_batch_reordered"], timeout=1500),
                   de("market_env_step_loop_b3", "MarketEnv<2>::step loop, 3 instructions on symbolic assets", covers=["cover.cross_asset_batch_reordered"], timeout=2400, tiers=("thorough",))],
